@@ -531,6 +531,13 @@ def gen_cases(ck):
         big = (not quick) and i % 40 == 0
         m = meshgen.gen_mesh(rng, max_ops=50 if big else 10)
         grids.append(("mesh", len(m.nodes), m.table(m.width() + rng.choice([0, 0, 1])), m.lonlat()))
+    # array-wide blocking only shows on LARGE leading dimensions: a few small grids with a long leading axis
+    for lead in ([(513,), (1300,), (700, 2)] if quick else [(513,), (1300,), (4099,), (700, 2), (1025, 1), (2, 600), (512,), (1024,)]):
+        n, t = meshgen.gen_table(rng, max_nodes=7, max_faces=3)
+        n = max(n, max(x for r in t for x in r if x != FILL) + 1)
+        dd = gen_data(rng, n, cls=rng.choice(["dyadic", "int"]), lead=lead)
+        cases.append({"kind": "big_leading", "table": t, "n_node": n, "lonlat": None, "data": dd, "mode": "valid",
+                      "big_lead": True, "aggs": ["sum", "max", "mean", "any"]})
     for (kind, n, t, ll) in grids:
         n_used = max(x for r in t for x in r if x != FILL) + 1
         n = max(n, n_used)
@@ -672,7 +679,7 @@ def main(ck):
         for ci, (c, res) in enumerate(zip(cases, results)):
             if res is None:
                 continue
-            if c["mode"] == "valid" and not c["data"].get("special"):
+            if c["mode"] == "valid" and not c["data"].get("special") and not c.get("big_lead"):
                 arr = make_array(c["data"])
                 ls = model_lines_for(c, arr)
                 face_lines += ls
